@@ -18,7 +18,7 @@
    pinned tree (19; bucket tags charged by their string lengths) is refuted in
    Refuted/C12_refuted.v. *)
 From Coq Require Import ZArith List Bool Lia.
-From Tally Require Import Base.Obs Gen.Params Model.Varint Model.Thrift Model.M3Batch
+From Tally Require Import Base.ObsCore Gen.Params Model.Varint Model.Thrift Model.M3Batch
   Proof.VarintP Proof.ThriftP Proof.M3BatchP Proof.ParamsOkM3.
 Import ListNotations.
 Open Scope Z_scope.
